@@ -108,6 +108,19 @@ def oracle(ck, extended):
         (lh, lw), hsz = pyramid_shapes(H, W, J)
         low = gen.float_tensor(ck.nprng, (1, 2, lh, lw)); highs = [gen.float_tensor(ck.nprng, (1, 2, 6, a, b_, 2)) for a, b_ in hsz]
         rt.guard(ck, oracle_inv, ck, b, s, bt, qt, low, highs, '%s/%s' % (b, s))
+    # basis pyramids: one unit sample (first row, first column and interior; lowpass and each level).  The first-row
+    # impulses are the inputs on which the reference's zero shortcut misfires (oracle_dtcwt._linear_colifilt)
+    for (H, W, J) in [(8, 8, 2), (16, 12, 3), (5, 7, 2)]:
+        b, s = rng.choice(pairs); bt, qt = OD.lib_tables(b, s)
+        (lh, lw), hsz = pyramid_shapes(H, W, J)
+        for where in ['low'] + list(range(J)):
+            for (i, j) in [(0, 0), (0, lw - 1), (lh - 1, 0)] if where == 'low' else [(0, 0), (hsz[where][0] - 1, hsz[where][1] - 1)]:
+                low = np.zeros((1, 1, lh, lw)); highs = [np.zeros((1, 1, 6, a, b_, 2)) for a, b_ in hsz]
+                if where == 'low':
+                    low[0, 0, i, j] = 1.0
+                else:
+                    highs[where][0, 0, rng.randrange(6), i, j, rng.randrange(2)] = 1.0
+                rt.guard(ck, oracle_inv, ck, b, s, bt, qt, low, highs, '%s/%s basis %s (%d,%d)' % (b, s, where, i, j))
     for it in range((20 if q else 200) * (3 if extended else 1)):
         bt = OD.int_biort(rng, gen); qt = OD.int_qshift(rng, gen)
         J = rng.randint(1, 3)
